@@ -263,7 +263,7 @@ OpenLib(st, lib) ==
         s2 == IF lib = "package" THEN [s1 EXCEPT !.preload = [m \in DOMAIN @ |-> NoLoader], !.searchers = StdSearchers] ELSE s1
     IN IF lib = "base" \/ n \notin SeqSet(st.names) \/ IsTbl(s2, s2.loaded[n]) THEN [st |-> s2, res |-> NoRes]
        ELSE LET g == FindGlobalTable(s2, n)
-            IN IF g.err # <<>> THEN [st |-> s2, res |-> g.err]
+            IN IF g.err # <<>> THEN [st |-> st, res |-> g.err]      \* luaL_register comes first: nothing else happened
                ELSE [st |-> SetLoaded(g.st, n, g.v), res |-> NoRes]
 
 (* one top-level operation of a history at position pos: [st, res] *)
@@ -282,6 +282,16 @@ Exec(st0, op, pos) ==
             \* kind "loaded": the global gets the value of package.loaded[n] (puts a hidden library table back)
             IF op.kind = "loaded" THEN [st |-> [st EXCEPT !.glob[op.n] = st.loaded[op.n]], res |-> NoRes]
             ELSE LET m == MkVal(st, op.kind) IN [st |-> [m.st EXCEPT !.glob[op.n] = m.v], res |-> NoRes]
+      [] op.op = "clearall" ->
+            \* the hot-reload idiom: for k in pairs(package.loaded) do package.loaded[k] = nil end - every entry goes,
+            \* "package" and the standard libraries included; require, the searchers and PreloadModule still work
+            \* (they never find the package table through package.loaded)
+            [st |-> [st EXCEPT !.loaded = [m \in DOMAIN @ |-> Nil]], res |-> NoRes]
+      [] op.op = "gmeta" ->
+            \* the script gives the table of globals a metatable: __index raises ("strict"), or answers every missing
+            \* name with one and the same table ("fallback": a new object), or none.  module() and luaL_register look
+            \* names up with RAW accesses (luaL_findtable: lua_rawget), so nothing else changes.
+            [st |-> IF op.kind = "fallback" THEN [st EXCEPT !.nobj = @ + 1] ELSE st, res |-> NoRes]
       [] op.op = "loaders" ->
             \* package.loaders edited in place or replaced by a new table (op.how): the same thing to require
             [st |-> [st EXCEPT !.searchers = [i \in 1..Len(op.list) |-> [k |-> op.list[i], lid |-> IF op.list[i] \in {"P", "F"} THEN "none" ELSE "L" \o ToString(pos)]]],
@@ -296,6 +306,7 @@ OpWellFormed(st, op) ==
                            /\ Len(NormPath(op.path)) >= 1
       [] op.op = "rmfile" -> Len(NormPath(op.path)) >= 1
       [] op.op \in {"glob", "register"} -> Plain(st, op.n)
+      [] op.op = "gmeta" -> op.kind \in {"strict", "fallback", "none"}
       [] op.op = "loaders" -> Ready(st) /\ op.how \in {"replace", "inplace"} /\ \A i \in 1..Len(op.list) : op.list[i] \in {"P", "F", "C", "N"}
       [] op.op = "open" -> op.lib \in {"base", "package", "string", "table"} /\ (op.lib = "base" => "_G" \notin SeqSet(st.names))
       [] OTHER -> Ready(st)        \* req, clear, unpreload, path
